@@ -209,6 +209,93 @@ def dispatch_trees(r):
     return out
 
 
+# ---- the array constructors with NumPy's element-wise operators and reductions
+
+ARRAY_CTOR = {'S': 'SpinArray', 'B': 'BinaryArray', 'I': 'IntegerArray', 'R': None}
+
+
+def realarray(ls):
+    """there is no RealArray constructor: the Reals in an object array"""
+    a = np.empty(len(ls), dtype=object)
+    for i, m in enumerate(dimod.Reals(ls)):
+        a[i] = m
+    return a
+
+
+def fold_add(es):
+    t = es[0]
+    for e in es[1:]:
+        t = ('ADD', t, e)
+    return t
+
+
+def array_tree(r):
+    """(equivalent scalar tree, special entry): `SpinArray/BinaryArray/IntegerArray(labels)` (Reals: `np.array(list(dimod.Reals(labels)))`)
+    combined element-wise with a vector of numbers / a number / a second array and reduced with `.sum()`, `@`, `np.dot` or
+    `quicksum`.  NumPy calls the same operator overloads element by element and folds `+` from the left, so the value must
+    be the one of the scalar tree; the elements must not be modified."""
+    K = r.choice('SSBBBIIR')
+    k = r.choice([1, 2, 2, 3, 3])
+    la = r.sample(LABELS, k)
+    stage = r.choice(['id', 'id', 'wmul', 'mulw', 'addw', 'subw', 'rsubw', 'div', 'neg', 'pow', 'xy', 'xy', 'x+y', 'x-y', 'qmul', 'qadd'])
+    leaf = lambda kk, l: ('V', kk, l, F(1), F(0) if kk in 'IR' else None, None, None)      # noqa: E731
+    a = [leaf(K, l) for l in la]
+    w = [dy(r) for _ in range(k)]
+    q = r.choice([F(2), F(-4), F(1, 2), F(-1), F(8)])      # divisors must be powers of two (exact arithmetic)
+    K2, lb_ = K, la
+    if stage in ('xy', 'x+y', 'x-y'):
+        K2 = r.choice('SBI' + K)
+        rest = [l for l in LABELS if l not in la]
+        lb_ = r.sample(LABELS, k) if K2 == K else (r.sample(rest, k) if len(rest) >= k else None)
+        if lb_ is None:
+            stage = 'id'
+    b = [leaf(K2, l) for l in (lb_ or [])]
+    C = lambda v: ('C', v)      # noqa: E731
+    es = {'id': lambda: a, 'wmul': lambda: [('MUL', C(w[i]), a[i]) for i in range(k)], 'mulw': lambda: [('MUL', a[i], C(w[i])) for i in range(k)],
+          'addw': lambda: [('ADD', a[i], C(w[i])) for i in range(k)], 'subw': lambda: [('SUB', a[i], C(w[i])) for i in range(k)],
+          'rsubw': lambda: [('SUB', C(w[i]), a[i]) for i in range(k)], 'div': lambda: [('DIV', q, a[i]) for i in range(k)],
+          'neg': lambda: [('NEG', a[i]) for i in range(k)], 'pow': lambda: [('POW', 2, a[i]) for i in range(k)],
+          'xy': lambda: [('MUL', a[i], b[i]) for i in range(k)], 'x+y': lambda: [('ADD', a[i], b[i]) for i in range(k)],
+          'x-y': lambda: [('SUB', a[i], b[i]) for i in range(k)], 'qmul': lambda: [('MUL', C(q), a[i]) for i in range(k)],
+          'qadd': lambda: [('ADD', a[i], C(q)) for i in range(k)]}[stage]()
+    red = r.choice(['sum', 'sum', 'quicksum'] + (['x@w', 'w@x', 'dot'] if stage == 'id' else []))
+    if red == 'quicksum' and k == 2:
+        red = 'sum'
+    if red in ('x@w', 'w@x', 'dot'):
+        es = [('MUL', a[i], C(w[i])) if red != 'w@x' else ('MUL', C(w[i]), a[i]) for i in range(k)]
+    t = fold_add(es) if red != 'quicksum' else (('Q1', es[0]) if k == 1 else ('Q3',) + tuple(es))
+
+    def arr_src(kk, ls):
+        return f'dimod.{ARRAY_CTOR[kk]}({ls!r})' if ARRAY_CTOR[kk] else f'realarray({ls!r})'
+    wsrc = 'np.array(' + repr([float(v) for v in w]) + ')'
+    qsrc = repr(int(q) if q.denominator == 1 else float(q))
+    esrc = {'id': 'x', 'wmul': 'w * x', 'mulw': 'x * w', 'addw': 'x + w', 'subw': 'x - w', 'rsubw': 'w - x', 'div': f'x / {qsrc}', 'neg': '-x',
+            'pow': 'x ** 2', 'xy': 'x * y', 'x+y': 'x + y', 'x-y': 'x - y', 'qmul': f'{qsrc} * x', 'qadd': f'x + {qsrc}'}[stage]
+    rsrc = {'sum': f'({esrc}).sum()', 'quicksum': f'dimod.quicksum({esrc})', 'x@w': 'x @ w', 'w@x': 'w @ x', 'dot': 'np.dot(x, w)'}[red]
+    src = f"(lambda x, y, w: {rsrc})({arr_src(K, la)}, {arr_src(K2, lb_) if b else None}, {wsrc})"
+
+    def run_it(ev, node):
+        env = {'dimod': dimod, 'np': np, 'realarray': realarray}
+        x = eval(arr_src(K, la), env)
+        y = eval(arr_src(K2, lb_), env) if b else None
+        wv = np.array([float(v) for v in w])
+        elems = list(x) + (list(y) if y is not None else [])
+        before = [snap(e) for e in elems]
+        try:
+            out = eval(f'lambda x, y, w: {rsrc}', env)(x, y, wv)
+        finally:
+            after = [snap(e) for e in elems]
+            if before != after:
+                i = next(j for j in range(len(elems)) if before[j] != after[j])
+                ev.opfail = (node, i, before[i], after[i])
+        if isinstance(out, np.ndarray):
+            out = out.item()
+        return out
+    KEEP_NODES.append(t)
+    SRC_OVERRIDE[id(t)] = src
+    return t, {id(t): (run_it, f'{K}:{stage}:{red}')}
+
+
 def subtrees(t, out):
     """post order, children first"""
     for c in (() if t[0] in 'VCE' else t[1:]):
@@ -345,6 +432,7 @@ class Evaluator:
         self.keep = []          # CQMs owning views
         self.res = {}           # id(node) -> ('ok', obj) | ('err', cls)
         self.opfail = None
+        self.special = {}       # id(node) -> (callable(ev), tick): the node is evaluated by an array expression, not by its children
 
     def view_of(self, o, obj):
         if not is_model(o):
@@ -398,6 +486,15 @@ class Evaluator:
 
     def _ev(self, t):
         op = t[0]
+        if id(t) in self.special:
+            f, how = self.special[id(t)]
+            try:
+                out = f(self, t)
+            except (TypeError, ValueError, ZeroDivisionError) as e:
+                self.ctx.tick(f'array form: {how} -> raises {ERRS[type(e)]}')
+                raise Raised(ERRS[type(e)], e)
+            self.ctx.tick(f'array form: {how} -> {kind_of(out)}')
+            return out
         if op == 'V':
             try:
                 return make_leaf(self.r, t, self.dtypes, self.keep)
@@ -542,8 +639,14 @@ def model_energy(co, x):
     return off + sum(b * x[v] for v, b in lin.items()) + sum(b * x[u] * x[v] for u, v, b in quad)
 
 
+SRC_OVERRIDE = {}      # id(node) -> source text, for nodes evaluated through another API than the scalar operators (array forms)
+KEEP_NODES = []        # keeps those nodes alive so that their ids stay unique
+
+
 def pyexpr(t):
     """source text building the tree with the real operators (helpers defined in PRE)"""
+    if id(t) in SRC_OVERRIDE:
+        return SRC_OVERRIDE[id(t)]
     op = t[0]
     if op == 'V':
         _, k, l, b, lb, ub, dt = t
@@ -571,8 +674,14 @@ def pyexpr(t):
 
 
 PRE = '''import dimod
+import numpy as np
 from fractions import Fraction as F
 KEEP = []
+def realarray(ls):
+    a = np.empty(len(ls), dtype=object)
+    for i, m in enumerate(dimod.Reals(ls)):
+        a[i] = m
+    return a
 def iadd(a, b):
     a += b; return a
 def isub(a, b):
@@ -844,13 +953,19 @@ def run(ctx):
     nprop = 0
     extra = []
     for _ in range(ctx.scale(2, 12)):
-        extra.extend(dispatch_trees(r))
+        extra.extend((t_, ty_, None) for t_, ty_ in dispatch_trees(r))
+    aty = {l: ('B', None, None) for l in LABELS}
+    aty['__mixed__'] = False
+    for _ in range(ctx.scale(600, 6000)):
+        t_, sp_ = array_tree(r)
+        extra.append((t_, aty, sp_))
     for ti in range(len(extra) + ntrees):
         cut = False
+        special = None
         if ti < len(extra):
-            t, ty = extra[ti]
+            t, ty, special = extra[ti]
             mixed = False
-            ctx.tick('tree: systematic dispatch sweep')
+            ctx.tick('tree: systematic dispatch sweep' if special is None else 'tree: array form')
         else:
             mixed = r.random() < .25
             ty = gen_typing(r, mixed)
@@ -860,6 +975,8 @@ def run(ctx):
         dtypes = {}
         src = pyexpr(t)
         ev = Evaluator(ctx, r, dtypes, src)
+        if special:
+            ev.special = special
         try:
             ev.ev(t)
         except Raised:
@@ -982,7 +1099,7 @@ def run(ctx):
                         break
             else:
                 expect.append('ok bool')
-        if ev.res.get(id(t), ('err',))[0] == 'ok' and not cut and r.random() < (.5 if ti < len(extra) else .3):
+        if ev.res.get(id(t), ('err',))[0] == 'ok' and not cut and special is None and r.random() < (.5 if ti < len(extra) else .3):
             nprop += compare_two(ctx, r, ev, t, ty, lines, expect, meta)
         if nprop >= 8:
             break
